@@ -87,6 +87,7 @@ type Config struct {
 	Deadline      time.Time
 	Params        map[string]int
 	Primary       solverName
+	Vector        []uint64
 }
 
 type Engine struct {
@@ -604,6 +605,24 @@ func (e *Engine) RunHarness(fn *ssa.Function) *HarnessResult {
 	if nw < 1 {
 		nw = 1
 	}
+	stopTick := make(chan struct{})
+	if e.cfg.Verbose || os.Getenv("SYMGO_PROGRESS") != "" {
+		go func() {
+			tk := time.NewTicker(10 * time.Second)
+			defer tk.Stop()
+			for {
+				select {
+				case <-stopTick:
+					return
+				case <-tk.C:
+					mu.Lock()
+					fmt.Fprintf(os.Stderr, "[%s] %.0fs paths=%d queue=%d active=%d decisions=%d\n", fn.Name(), time.Since(t0).Seconds(), atomic.LoadInt64(&res.Paths), len(queue), active, atomic.LoadInt64(&res.Decisions))
+					mu.Unlock()
+				}
+			}
+		}()
+	}
+	defer close(stopTick)
 	for i := 0; i < nw; i++ {
 		wg.Add(1)
 		go func(id int) {
